@@ -5,6 +5,7 @@ import (
 	"context"
 	"errors"
 	"fmt"
+	"google.golang.org/protobuf/types/known/timestamppb"
 	"os"
 	"sort"
 	"strings"
@@ -245,12 +246,21 @@ func filterType(a []*openfgav1.TupleChange, t string) []*openfgav1.TupleChange {
 
 // apiChanges pages through commands.ReadChangesQuery (the ReadChanges API) until a page comes back empty.
 func apiChanges(ctx context.Context, ds storage.OpenFGADatastore, store, typ string, pageSize int32, horizonMin int) ([]*openfgav1.TupleChange, int, error) {
+	return apiChangesFrom(ctx, ds, store, typ, pageSize, horizonMin, time.Time{})
+}
+
+// apiChangesFrom: as apiChanges, the first request carrying start_time (zero = none).
+func apiChangesFrom(ctx context.Context, ds storage.OpenFGADatastore, store, typ string, pageSize int32, horizonMin int, start time.Time) ([]*openfgav1.TupleChange, int, error) {
 	q := commands.NewReadChangesQuery(ds, commands.WithReadChangeQueryHorizonOffset(horizonMin))
 	var out []*openfgav1.TupleChange
 	tok := ""
 	pages := 0
 	for guard := 0; guard < 10000; guard++ {
-		resp, err := q.Execute(ctx, &openfgav1.ReadChangesRequest{StoreId: store, Type: typ, PageSize: wrapperspb.Int32(pageSize), ContinuationToken: tok})
+		req := &openfgav1.ReadChangesRequest{StoreId: store, Type: typ, PageSize: wrapperspb.Int32(pageSize), ContinuationToken: tok}
+		if !start.IsZero() {
+			req.StartTime = timestamppb.New(start) // sent with every page: a continuation token takes precedence
+		}
+		resp, err := q.Execute(ctx, req)
 		if err != nil {
 			return out, pages, err
 		}
@@ -485,6 +495,38 @@ func (w *runner) straddle(ctx context.Context, hist []wl.Event, ref *wl.Ref, spl
 			}
 		}
 	}
+	// start_time (ReadChanges API): changes are identified by ULIDs whose time component is the millisecond of the
+	// write; a start time in the pause between the two halves (strictly after the last millisecond the old half
+	// can carry, not after the first millisecond of the young half; the pause is 3 ms) must return exactly the
+	// changes of the requests after the pause, in order, for every page size
+	if gap := ts.w0[split].Sub(ts.w1[split-1]); gap >= 2*time.Millisecond {
+		start := ts.w1[split-1].Truncate(time.Millisecond).Add(time.Millisecond)
+		full, _, _ := wl.ChangesRaw(ctx, w.b.DS, store, storage.ReadChangesFilter{}, 0, false)
+		if len(full) >= oldN {
+			for _, t := range []string{"", "doc"} {
+				for _, ps := range []int32{1, 50} {
+					got, _, err := apiChangesFrom(ctx, w.b.DS, store, t, ps, 0, start)
+					st.evals++
+					st.counts["start_time_cases_decided"]++
+					want := filterType(full[oldN:], t)
+					if err != nil || !eqChanges(got, want) {
+						c := Case{Backend: w.name, History: hist, Readable: histString(u, hist), Check: fmt.Sprintf("start_time split=%d type=%q pageSize=%d start=+%v after the old half", split, t, ps, start.Sub(ts.w1[split-1])),
+							Got: wl.ChangeStrings(got), Want: wl.ChangeStrings(want)}
+						sig := "start-time-returns-older-changes@memory"
+						if len(got) < len(want) {
+							sig = "start-time-withholds-newer-changes@memory"
+						}
+						if err != nil {
+							sig = "start-time-read-failed@memory"
+						}
+						devs = append(devs, dev{sig, fmt.Sprintf("ReadChanges with start_time between the two halves: expected exactly the %d changes written after the pause, got %d (err=%v) — history: %s", len(want), len(got), err, c.Readable), c})
+					}
+				}
+			}
+		}
+	} else {
+		st.straddleInconclusive++
+	}
 	return devs
 }
 
@@ -644,7 +686,7 @@ const rule = "Breadth-first over Write histories (alphabet: write t, delete t, d
 	"states = (tuple set, changelog) computed by the reference model and deduplicated; EVERY accepted transition from every state of history length < D is executed on a fresh store " +
 	"on memory and on SQLite (so a state reached by several histories is checked once per history) and in the reached state: replay(ReadChanges oldest-first) = Read; one entry per applied item, in request order; " +
 	"storage page sizes {default,1,50} and API page sizes {1,50}, with type filters {none, doc, folder, do, fold, user}, agree with the oldest-first list; descending = exact reverse; " +
-	"horizon offset 0 withholds nothing and an offset of 1000 h (API: 60000 min) withholds everything; on memory additionally, for every split point of the history, an offset between the ages of the two halves returns exactly the old half, ascending and descending (descending = its exact reverse). " +
+	"horizon offset 0 withholds nothing and an offset of 1000 h (API: 60000 min) withholds everything; on memory additionally, for every split point of the history, an offset between the ages of the two halves returns exactly the old half, ascending and descending (descending = its exact reverse), and a ReadChanges start_time inside the pause returns exactly the young half for page sizes 1 and 50. " +
 	"A case is distinct by (backend, state); non-trivial = non-empty changelog."
 
 func Run(o *core.Options) int {
